@@ -964,7 +964,7 @@ theorem nsecMisusedFor_false {r : Nsec} {name : Name} (h : nsecMisusedFor r name
 function itself now refuses a covering record that is an ancestor delegation
 / DNAME of the name or whose next name lies below it, RFC 6840 §4.1 and
 RFC 8198 App. B). -/
-theorem nameError_core {z : Zone} (hz : z.WF) (hroot : z.apex ≠ []) {s : List Nsec}
+theorem nameError_core {z : Zone} (hz : z.WF) (hroot : z.apex = [] → z.inTree [star] = false) {s : List Nsec}
     (hg : ∀ r ∈ s, Genuine z r) {q : Name} (hq : z.apex <+: q)
     (t : Nat) (hok : verifyNameErrorNSEC q s = .ok ()) : z.answerClass q t = .nxdomain := by
   unfold verifyNameErrorNSEC at hok
@@ -987,12 +987,35 @@ theorem nameError_core {z : Zone} (hz : z.WF) (hroot : z.apex ≠ []) {s : List 
             rw [closestEncloserFromNSEC_eq]; exact gap.closestEncloser hz hq
           have hwz : z.apex <+: closestEncloserFromNSEC q c ++ [star] := by
             rw [closestEncloserFromNSEC_eq]; exact gap.wild_in_zone hz hq
-          have hcene : closestEncloserFromNSEC q c ≠ [] := by
-            intro e
-            have := apex_prefix_take hq (gap.ce_bounds hz hq).1
-            rw [← closestEncloserFromNSEC_eq, e] at this
-            exact hroot (List.prefix_nil.mp this)
-          simp only [hcene, if_false] at hok
+          have hmis := nsecMisusedFor_false (by simpa using hmisq)
+          have hocc : z.occluded q = false := by
+            cases ho : z.occluded q with
+            | false => rfl
+            | true =>
+              exfalso
+              obtain ⟨a, ha, han, hcut, hpre, hne⟩ := gap.occluded hz ho
+              have hty := (hg c hcm).types_of_node hz ha han
+              exact hmis ⟨(isStrictSub_iff q c.owner).mpr ⟨hpre, hne⟩, hty ▸ hcut⟩
+          have hent : z.isENT q = false :=
+            gap.not_ent hz hq (by unfold nsecProvesENT at hentq; simpa using hentq)
+          by_cases hcn : closestEncloserFromNSEC q c = []
+          · -- closest encloser is the root: only possible in the root zone, where the
+            -- function skips the wildcard proof; the hypothesis supplies "no `*.`"
+            have hapex : z.apex = [] := by
+              have := apex_prefix_take hq (gap.ce_bounds hz hq).1
+              rw [← closestEncloserFromNSEC_eq, hcn] at this
+              exact List.prefix_nil.mp this
+            have hst := hroot hapex
+            unfold Zone.inTree at hst
+            simp only [Bool.or_eq_false_iff] at hst
+            have hfn : z.find [star] = none := by
+              cases hf : z.find [star] with
+              | none => rfl
+              | some a => rw [hf] at hst; cases hst.1
+            have e : z.closestEncloser q ++ [star] = [star] := by rw [hce, hcn]; rfl
+            exact answerClass_nxdomain z q t hq (gap.ne_apex hz) hocc gap.find_none hent
+              (by rw [e]; exact hfn) (by rw [e]; exact hst.2)
+          simp only [hcn, if_false] at hok
           split at hok
           · cases hok
           · rename_i r hrfind
@@ -1005,17 +1028,6 @@ theorem nameError_core {z : Zone} (hz : z.WF) (hroot : z.apex ≠ []) {s : List 
               · cases hok
               · rename_i hentw
                 have gapw := covers_inGap hz (hg r hr) hwz hrc
-                have hmis := nsecMisusedFor_false (by simpa using hmisq)
-                have hocc : z.occluded q = false := by
-                  cases ho : z.occluded q with
-                  | false => rfl
-                  | true =>
-                    exfalso
-                    obtain ⟨a, ha, han, hcut, hpre, hne⟩ := gap.occluded hz ho
-                    have hty := (hg c hcm).types_of_node hz ha han
-                    exact hmis ⟨(isStrictSub_iff q c.owner).mpr ⟨hpre, hne⟩, hty ▸ hcut⟩
-                have hent : z.isENT q = false :=
-                  gap.not_ent hz hq (by unfold nsecProvesENT at hentq; simpa using hentq)
                 have hwent : z.isENT (closestEncloserFromNSEC q c ++ [star]) = false :=
                   gapw.not_ent hz hwz (by unfold nsecProvesENT at hentw; simpa using hentw)
                 exact answerClass_nxdomain z q t hq (gap.ne_apex hz) hocc gap.find_none hent
